@@ -180,6 +180,16 @@ func monitorForwardsRule(c *Ctx, rule string) {
 							registered[st.Field(fa.Field).Name()] = true
 						}
 					}
+					// ... or hands the field's address to a setter helper (setCallback(&m.onDisconnect, fn))
+					if ci, ok := x.(ssa.CallInstruction); ok {
+						for _, a := range ci.Common().Args {
+							if fa, ok := m.traceValue(a).(*ssa.FieldAddr); ok && namedOf(fa.X.Type()) == t {
+								if _, isSig := st.Field(fa.Field).Type().Underlying().(*types.Signature); isSig {
+									registered[st.Field(fa.Field).Name()] = true
+								}
+							}
+						}
+					}
 				})
 			}
 		}
@@ -365,6 +375,25 @@ func checkC11(c *Ctx) {
 		} else {
 			c.ok("R2", "timer stored in "+fn, s.call, "stored to %s", timerField)
 			stopped := false
+			// ... in a helper the arming function calls before it re-arms (stopTimerLocked)
+			for _, bf := range m.bodyFns(s.fn) {
+				if bf == s.fn {
+					continue
+				}
+				eachInstr(bf, func(in ssa.Instruction) {
+					if call, ok := isCallTo(valueOf(in), "(*time.Timer).Stop"); ok {
+						if a := m.Sym.Of(call.Call.Args[0]); a.Op == "path" && a.Name == timerField {
+							eachInstr(s.fn, func(y ssa.Instruction) {
+								if c2, ok := y.(*ssa.Call); ok && c2.Call.StaticCallee() != nil && (c2.Call.StaticCallee() == bf || m.staticReach(c2.Call.StaticCallee(), false)[bf]) {
+									if reachableAfter(c2, func(x ssa.Instruction) bool { return x == ssa.Instruction(s.call) }) != nil || dominatesInstr(c2, s.call) {
+										stopped = true
+									}
+								}
+							})
+						}
+					}
+				})
+			}
 			eachInstr(s.fn, func(in ssa.Instruction) {
 				if call, ok := isCallTo(valueOf(in), "(*time.Timer).Stop"); ok {
 					if a := m.Sym.Of(call.Call.Args[0]); a.Op == "path" && a.Name == timerField && dominatesInstr(call, s.call) == false {
@@ -505,7 +534,7 @@ func checkC11(c *Ctx) {
 			adv := advances(s.fn)
 			c.check(adv != nil && dominatesInstr(adv, s.call), "R3", "arming advances the generation in "+fn, s.call, "%s is incremented before time.AfterFunc: %v", genField, adv != nil && dominatesInstr(adv, s.call))
 			for _, f := range m.Funcs {
-				if f == s.fn {
+				if f == s.fn || m.ownerOf(f) == s.fn {
 					continue
 				}
 				var stopCall ssa.Instruction
@@ -520,6 +549,14 @@ func checkC11(c *Ctx) {
 					continue
 				}
 				adv := advances(f)
+				if own := m.ownerOf(f); adv == nil && own != f {
+					// a stop helper called from this one place: the place advances the counter
+					for _, bf := range m.bodyFns(own) {
+						if a2 := advances(bf); a2 != nil {
+							adv = a2
+						}
+					}
+				}
 				c.check(adv != nil, "R3", "stopping the timer advances the generation in "+shortFn(f), stopCall, "%s is incremented in the function that stops %s: %v (a callback that has already fired is not recalled by Timer.Stop)", genField, timerField, adv != nil)
 			}
 		}
@@ -654,7 +691,7 @@ func checkC11(c *Ctx) {
 	// the timer of a newer disconnect notification that no reconnect has followed.
 	if armGen != "" {
 		for _, f := range m.Funcs {
-			if f == armFn {
+			if f == armFn || m.ownerOf(f) == armFn {
 				continue
 			}
 			var cancelAt ssa.Instruction
